@@ -773,7 +773,7 @@ def jsonable_ops(steps):
 
 def run(chk: Check) -> int:
     chk.prove(["theories/Props/C16.vo", "theories/Run/AvgRun.vo"], THEOREMS,
-              allowed_axioms=frozenset(STD_AXIOMS_OK | PRIMS))
+              allowed_axioms=frozenset(STD_AXIOMS_OK | PRIMS | {"Axioms"}))  # core's parser also yields the header word "Axioms"
     quick = chk.quick
     guard, dedup = probe_guard(), probe_dedup()
     chk.log(f"implementation probes: F11 repaired={guard}  F13 repaired={dedup}")
